@@ -9,7 +9,7 @@
  * (fs->icache entry for `ino` overwritten with the new contents, or a cache created), so a read-only handle's later
  * ext2fs_read_inode returns the never-written contents.  No device effect: observation only.
  * ext2fs_read_inode2 (same file) is replaced by a contract (arbitrary result into the caller's buffer, no channel write:
- * it only calls io_channel_read_blk64); ext2fs_create_inode_cache / ext2fs_flush_icache / ext2fs_free_inode_cache are real.
+ * it only calls io_channel_read_blk64); ext2fs_create_inode_cache is replaced by a contract (error, or a fresh cache object).
  * In the write_new_inode unit ext2fs_write_inode2 is replaced by the contract proved in the write_inode2 unit.
  */
 /* VERIF-UNIT
@@ -17,17 +17,16 @@
  "name": "write_inode2_ro",
  "props": ["C13"],
  "level": "P",
- "tier": "wip",
+ "tier": "quick",
  "harness": "h_write_inode2_ro",
- "replace": ["ext2fs_read_inode2"],
+ "replace": ["ext2fs_read_inode2", "ext2fs_create_inode_cache"],
  "sources": ["lib/ext2fs/io_manager.c"],
  "unwind": 6,
- "unwind_reason": "inode cache of 4 entries (ext2fs_create_inode_cache(fs, 4), harness cache_size <= 4): loops over the cache run <= 4 times; the write loop `while (length)` is behind the EXT2_FLAG_RW test and unreachable here (unwinding assertions)",
+ "unwind_reason": "harness cache_size <= 4: the cache look-up loop runs <= 4 times; the write loop `while (length)` is behind the EXT2_FLAG_RW test and unreachable here (unwinding assertions)",
  "cbmc_flags": ["--object-bits", "10"],
  "functions": ["lib/ext2fs/inode.c:ext2fs_write_inode2", "lib/ext2fs/inode.c:ext2fs_write_inode", "lib/ext2fs/inode.c:ext2fs_write_inode_full"],
- "assumes": ["EXT2_FLAG_RW is clear (the statement is about read-only handles); other flags arbitrary",
-	     "inode size (EXT2_INODE_SIZE) 128 or 256, block size 1024; bufsize 128 or 256 with a 256-byte caller buffer (the call patterns sizeof(struct ext2_inode) / EXT2_INODE_SIZE)",
-	     "inode cache absent, or present with cache_size <= 4 and valid entry buffers",
+ "assumes": ["EXT2_FLAG_RW is clear (the statement is about read-only handles); ENUMERATED configurations (one call site each, see comment at the harness): fs->flags in {DIRTY|CHANGED, all bits but RW}, inode size 128/256 (dynamic revision), bufsize 128/256 with a 256-byte caller buffer, ino 5 of 100 (plus ino 0 and 101 in one configuration each); block size 1024",
+	     "inode cache absent (then ext2fs_create_inode_cache, replaced by a contract: error or fresh cache object), or present with cache_size <= 4 and valid entry buffers",
 	     "the override hook fs->write_inode is absent or returns an arbitrary code without writing (e2fsck's pass1_write_inode only updates a stashed in-memory copy)",
 	     "no frame enforcement (objects are allocated and freed inside); statements are harness CHECKs + monitor events in the manager's write methods"],
  "native": false
@@ -38,16 +37,16 @@
  "name": "write_new_inode_ro",
  "props": ["C13"],
  "level": "P",
- "tier": "wip",
+ "tier": "quick",
  "harness": "h_write_new_inode_ro",
- "replace": ["ext2fs_write_inode2", "ext2fs_read_inode2"],
+ "replace": ["ext2fs_write_inode2", "ext2fs_read_inode2", "ext2fs_create_inode_cache"],
  "sources": ["lib/ext2fs/io_manager.c"],
  "unwind": 2,
  "unwind_reason": "ext2fs_write_new_inode is loop-free",
  "cbmc_flags": ["--object-bits", "10"],
  "functions": ["lib/ext2fs/inode.c:ext2fs_write_new_inode"],
  "assumes": ["EXT2_FLAG_RW clear; inode size 128 or 256; fs->now arbitrary non-zero or EXT2_FLAG2_USE_FAKE_TIME (time(2) not modelled)",
-	     "ext2fs_write_inode2 replaced by its contract (unit write_inode2_ro): without EXT2_FLAG_RW it returns non-zero and reaches no write method"],
+	     "ext2fs_write_inode2 replaced by its contract (unit write_inode2_ro): without EXT2_FLAG_RW it returns non-zero (unless the override hook fs->write_inode took the write) and reaches no write method"],
  "native": false
 }
 */
@@ -60,7 +59,7 @@ struct in_wi {
 	unsigned char rev0, big_inode, journal_dev, magic_bad;
 	unsigned char have_hook, have_icache;
 	unsigned int cache_size, cache_ino[4];
-	int bufsize_sel, wflags;
+	int bufsize_sel, wflags, flags_sel, ino_sel;
 	unsigned char inode[256];
 	long long now;
 	long hook_ret, read_ret;
@@ -71,6 +70,7 @@ struct in_wi IN;
 #include "ro_monitor.h"
 
 unsigned int g_hook_calls, g_read_calls, g_wi2_calls;
+long g_cic_ret;
 static unsigned int ro_nchoice;
 static unsigned long long ro_choice(void)
 {
@@ -89,15 +89,24 @@ errcode_t ext2fs_read_inode2(ext2_filsys fs, ext2_ino_t ino, struct ext2_inode *
 	ASSIGNS(g_read_calls, __CPROVER_object_whole(inode))
 	ENSURES(g_read_calls == OLD(g_read_calls) + 1);
 
+/* (real ext2fs_create_inode_cache: its allocation-failure path frees never-initialised cache[i].inode pointers —
+ * ext2fs_get_array does not zero — which is outside C13; CBMC's malloc may fail, so the callee is cut by a contract) */
+#define RO_ICACHE_SZ 40	/* sizeof(struct ext2_inode_cache) (ext2fsP.h cannot be included twice): checked below */
+errcode_t ext2fs_create_inode_cache(ext2_filsys fs, unsigned int cache_size)
+	ASSIGNS(fs->icache, g_cic_ret)
+	ENSURES(g_cic_ret == RET)
+	ENSURES(RET != 0 || FRESH(fs->icache, RO_ICACHE_SZ));
+
 #ifdef VERIF_UNIT_write_new_inode_ro
 errcode_t ext2fs_write_inode2(ext2_filsys fs, ext2_ino_t ino, struct ext2_inode *inode, int bufsize, int flags)
 	REQUIRES(bufsize == 128 || bufsize == 256)
 	ASSIGNS(g_wi2_calls)
 	ENSURES(g_wi2_calls == OLD(g_wi2_calls) + 1)
-	ENSURES((fs->flags & EXT2_FLAG_RW) || RET != 0);
+	ENSURES((fs->flags & EXT2_FLAG_RW) || RET != 0 || fs->write_inode != 0);	/* exactly what write_inode2_ro proves */
 #endif
 
 #include "lib/ext2fs/inode.c"
+_Static_assert(sizeof(struct ext2_inode_cache) == RO_ICACHE_SZ, "RO_ICACHE_SZ");
 
 static struct struct_ext2_filsys FS;
 static struct ext2_super_block SB;
@@ -126,6 +135,7 @@ static void build(void)
 	RO_MON_RESET();
 	ro_nchoice = 0;
 	g_hook_calls = g_read_calls = g_wi2_calls = 0;
+	g_cic_ret = 0;
 	memset(&FS, 0, sizeof(FS));
 	memset(&SB, 0, sizeof(SB));
 	memset(&IO, 0, sizeof(IO));
@@ -156,26 +166,43 @@ static void build(void)
 	memcpy(INO, IN.inode, 256);
 }
 
+static struct ext2_inode_cache IC;
+static struct ext2_inode_cache_ent ENT[4];
+static unsigned char CI0[256], CI1[256], CI2[256], CI3[256], ICBUF[1024];
 static void build_icache(void)
 {
 	unsigned i;
-	struct ext2_inode_cache *ic = malloc(sizeof(*ic));
-	ASSUME(ic != 0);
 	ASSUME(IN.cache_size >= 1 && IN.cache_size <= 4);
-	memset(ic, 0, sizeof(*ic));
-	ic->buffer = malloc(1024);
-	ic->cache = malloc(4 * sizeof(struct ext2_inode_cache_ent));
-	ASSUME(ic->buffer && ic->cache);
-	ic->cache_size = IN.cache_size;
-	ic->cache_last = -1;
-	ic->refcount = 1;
-	for (i = 0; i < 4; i++) {
-		ic->cache[i].ino = IN.cache_ino[i];
-		ic->cache[i].inode = malloc(256);
-		ASSUME(ic->cache[i].inode);
-	}
-	FS.icache = ic;
+	memset(&IC, 0, sizeof(IC));
+	IC.buffer = ICBUF;
+	IC.cache = ENT;
+	IC.cache_size = IN.cache_size;
+	IC.cache_last = -1;
+	IC.refcount = 1;
+	for (i = 0; i < 4; i++)
+		ENT[i].ino = IN.cache_ino[i];
+	ENT[0].inode = (struct ext2_inode *) CI0;
+	ENT[1].inode = (struct ext2_inode *) CI1;
+	ENT[2].inode = (struct ext2_inode *) CI2;
+	ENT[3].inode = (struct ext2_inode *) CI3;
+	FS.icache = &IC;
 }
+
+/* The configuration is ENUMERATED with one call site per combination, so that fs->flags, the inode size, bufsize and the
+ * inode number are constants inside each inlined call: symbolic execution then decides the EXT2_FLAG_RW test itself and
+ * drops the write loop behind it (with symbolic flags/ino that loop — memcpy into the cache buffer at a symbolic offset
+ * — is encoded although infeasible, and exhausts the 10 GB memory cap).
+ *   flags: DIRTY|CHANGED / every bit except RW;  inode size 128 / 256 (dynamic rev) ;  bufsize 128 / 256;
+ *   ino: 5 (valid; cached or not, the cache entries' numbers are arbitrary); 0 and s_inodes_count + 1 (invalid) in one
+ *   configuration each */
+#define RO_FLAGS1 (EXT2_FLAG_DIRTY | EXT2_FLAG_CHANGED)
+#define RO_FLAGS2 (0x7fffffff & ~EXT2_FLAG_RW)
+#define CALL1(F, ISZ, BUFSZ, INO_) do { FS.flags = (F); SB.s_inode_size = (ISZ); g_f0 = (F); g_ino = (INO_); \
+	r = ext2fs_write_inode2(&FS, (INO_), (struct ext2_inode *) INO, (BUFSZ), IN.wflags); } while (0)
+#define CALL_BUF(F, ISZ) do { if (IN.bufsize_sel) CALL1(F, ISZ, 256, 5); else CALL1(F, ISZ, 128, 5); } while (0)
+#define CALL_ISZ(F) do { if (IN.big_inode) CALL_BUF(F, 256); else CALL_BUF(F, 128); } while (0)
+static int g_f0;
+static unsigned int g_ino;
 
 void h_write_inode2_ro(void)
 {
@@ -183,15 +210,22 @@ void h_write_inode2_ro(void)
 	build();
 	if (IN.have_icache)
 		build_icache();
-	int bufsize = IN.bufsize_sel ? 256 : 128;
-	int f0 = FS.flags;
-	errcode_t r = ext2fs_write_inode2(&FS, IN.ino, (struct ext2_inode *) INO, bufsize, IN.wflags);
-	CHECK(r != 0, "read-only handle: ext2fs_write_inode2 fails");
+	SB.s_rev_level = EXT2_DYNAMIC_REV;
+	SB.s_inodes_count = 100;
+	errcode_t r;
+	if (IN.ino_sel == 1)
+		CALL1(RO_FLAGS1, 256, 128, 0);		/* invalid inode numbers: one configuration each */
+	else if (IN.ino_sel == 2)
+		CALL1(RO_FLAGS1, 256, 128, 101);
+	else if (IN.flags_sel == 1)
+		CALL_ISZ(RO_FLAGS1);
+	else
+		CALL_ISZ(RO_FLAGS2);
+	CHECK(r != 0 || g_hook_calls == 1, "read-only handle: ext2fs_write_inode2 fails unless the override hook took the write");
 	CHECK(ro_mon.writes == 0, "read-only handle: no channel write method reached");
-	CHECK(FS.flags == f0, "read-only handle: flags unchanged (not CHANGED, not DIRTY)");
-	if (!IN.magic_bad && !IN.journal_dev && !IN.have_hook && IN.ino != 0 && IN.ino <= IN.inodes_count && r != EXT2_ET_NO_MEMORY
-	    && g_read_calls == 0) {
-		CHECK(r == EXT2_ET_RO_FILSYS, "read-only handle: the refusal is EXT2_ET_RO_FILSYS");
+	CHECK(FS.flags == g_f0, "read-only handle: flags unchanged (not CHANGED, not DIRTY)");
+	if (!IN.magic_bad && !IN.journal_dev && !IN.have_hook && g_ino == 5 && r != EXT2_ET_NO_MEMORY && g_read_calls == 0) {
+		CHECK(r == EXT2_ET_RO_FILSYS || (g_cic_ret != 0 && r == g_cic_ret), "read-only handle: the refusal is EXT2_ET_RO_FILSYS (or the cache could not be created)");
 		REACH("ro-refusal");
 	}
 	if (g_hook_calls)
@@ -208,7 +242,7 @@ void h_write_new_inode_ro(void)
 	ASSUME(IN.now != 0);
 	int f0 = FS.flags;
 	errcode_t r = ext2fs_write_new_inode(&FS, IN.ino, (struct ext2_inode *) INO);
-	CHECK(r != 0, "read-only handle: ext2fs_write_new_inode fails");
+	CHECK(r != 0 || IN.have_hook, "read-only handle: ext2fs_write_new_inode fails unless an override hook took the write");
 	CHECK(ro_mon.writes == 0, "read-only handle: no channel write method reached");
 	CHECK(FS.flags == f0, "read-only handle: flags unchanged");
 #ifdef VERIF_UNIT_write_new_inode_ro
